@@ -1,7 +1,7 @@
 from propcfg.common import *
 
 CFG = {
-    "disabled": True,
+    "disabled": False,
     "props": "Props/C12.v",
     "corr": ["Corr/CacheCorr.v", "Corr/CbStoreCorr.v"],
     "engines": [("cache", []), ("cbstore", [])],
